@@ -1,3 +1,439 @@
-import GoStd.Bytes
+/-
+C12 — Responses to TCP requests return on the connection the request used.
+
+"Responses to TCP requests return on the connection the request used … even when several
+connections are open from the same address or announce the same Via sent-by, and however their
+transactions interleave; for provisional responses and for the first final response of each
+transaction."
+
+Model: the transport table of Proxy.Model (transport.go ClientTransportMgr). A request that arrives
+on inbound TCP connection `c` is registered by `handleRawMessage`: `GetTransport("tcp", host, port,
+tid)` followed by storing `primary := conn c` under the returned key, where `tid` is
+`GetClientTransaction` = CSeq method ++ "-" ++ top Via branch. A response is sent by `sendMessage`:
+`GetTransport` with the same four arguments, `entrySend` on the answered entry, and
+`RemoveTransport` afterwards when the response is final.
+
+What is proved here:
+ * the key is injective in (method, branch) for a fixed host:port (`C12_key_injective`), so two
+   transactions of the same address never share an entry; a '-' inside the method would break this
+   (`C12_key_collision_with_dash`);
+ * the registered entry is found again, with the same connection, on every table reached by any
+   interleaving of lookups (of any key), registrations of other keys and removals of other keys
+   (`C12_registered_lookup`); the shared un-keyed entry that lookups of other transactions of the same
+   host:port create is never the registered one (`C12_shared_ne_keyed`);
+ * such an entry sends on that connection and nowhere else (`C12_send_on_conn`,
+   `C12_sendMessage_on_conn`: provisional and final responses alike, the removal comes after the
+   lookup);
+ * `RemoveTransport` deletes exactly the given key (`C12_remove_exact`), so the final response of one
+   transaction does not disturb another.
+-/
+import Lemmas.Transport
+open GoStd Sip Proxy
+
 namespace Props.C12
+
+abbrev Table := List (Bytes × TransEntry)
+
+/-! ### 1. keys -/
+
+/-- The transaction id is `method ++ "-" ++ branch`, never empty. -/
+theorem C12_transaction_id_shape (cm : List (Bytes × Bytes)) (m : Message) (tid : Bytes)
+    (h : (getClientTransaction cm m).1 = some tid) : ∃ method br, tid = method ++ [45] ++ br ∧ tid ≠ [] := by
+  unfold getClientTransaction at h
+  split at h
+  · cases h
+  · split at h
+    · cases h
+    · split at h
+      · cases h
+      · split at h
+        · cases h
+        · simp only [Option.some.injEq] at h
+          exact ⟨_, _, h.symm, by rw [← h]; simp⟩
+
+/-- For one host:port, keys of transactions with '-'-free methods coincide only when method and
+branch coincide. -/
+theorem C12_key_injective (h : Bytes) (p : Int) (m₁ b₁ m₂ b₂ : Bytes)
+    (h₁ : (45 : UInt8) ∉ m₁) (h₂ : (45 : UInt8) ∉ m₂)
+    (hk : fullAddr (str "tcp") h p (m₁ ++ [45] ++ b₁) = fullAddr (str "tcp") h p (m₂ ++ [45] ++ b₂)) :
+    m₁ = m₂ ∧ b₁ = b₂ := by
+  have := Lemmas.fullAddr_tcp_tid_injective h p _ _ (by simp) (by simp) hk
+  exact Lemmas.append_sep_injective 45 _ _ _ _ h₁ h₂ this
+
+/-- Whatever the method looks like, for one host:port the key determines the whole transaction id. -/
+theorem C12_key_tid_injective (h : Bytes) (p : Int) (tid₁ tid₂ : Bytes) (h₁ : tid₁ ≠ []) (h₂ : tid₂ ≠ [])
+    (e : fullAddr (str "tcp") h p tid₁ = fullAddr (str "tcp") h p tid₂) : tid₁ = tid₂ :=
+  Lemmas.fullAddr_tcp_tid_injective h p tid₁ tid₂ h₁ h₂ e
+
+/-- Why the method must be free of '-': method `A-B` with branch `C` and method `A` with branch `B-C`
+get the same key. -/
+theorem C12_key_collision_with_dash (h : Bytes) (p : Int) :
+    fullAddr (str "tcp") h p (([65, 45, 66] : Bytes) ++ [45] ++ [67]) =
+      fullAddr (str "tcp") h p (([65] : Bytes) ++ [45] ++ [66, 45, 67])
+    ∧ ([65, 45, 66] : Bytes) ≠ [65] ∧ ([67] : Bytes) ≠ [66, 45, 67] := by
+  refine ⟨rfl, by decide, by decide⟩
+
+/-- The shared un-keyed entry of a host:port (written by the lookups of other transactions of that
+host:port) is not the entry of any transaction. -/
+theorem C12_shared_ne_keyed (h : Bytes) (p : Int) (tid : Bytes) (hne : tid ≠ []) :
+    fullAddr (str "tcp") h p [] ≠ fullAddr (str "tcp") h p tid :=
+  Lemmas.fullAddr_shared_ne_keyed h p tid hne
+
+/-! ### 2. registration, then lookup after any interleaving -/
+
+/-- One operation on the table that neither re-registers nor removes the key `k`:
+a registration under another key, a `GetTransport` with any arguments (the same key included: that
+is a response of the same transaction being routed), a `RemoveTransport` of another key. -/
+inductive Op (cfg : Cfg) (k : Bytes) : Table → Table → Prop where
+  | store (tr : Table) (k' : Bytes) (v : TransEntry) (hne : k' ≠ k) : Op cfg k tr (assocSet tr k' v)
+  | lookup (tr : Table) (proto h : Bytes) (p : Int) (tid : Bytes) (tr' : Table) (key' : Bytes) (e' : TransEntry)
+      (hg : getTransport cfg tr proto h p tid = some (tr', key', e')) : Op cfg k tr tr'
+  | delete (tr : Table) (k' : Bytes) (hne : k' ≠ k) : Op cfg k tr (assocDel tr k')
+  | remove (tr : Table) (proto h : Bytes) (p : Int) (tid : Bytes)
+      (hne : fullAddr (toLower proto) h p tid ≠ k) : Op cfg k tr (removeTransport cfg tr proto h p tid)
+
+/-- Any finite interleaving of such operations. -/
+inductive Reach (cfg : Cfg) (k : Bytes) : Table → Table → Prop where
+  | refl (tr : Table) : Reach cfg k tr tr
+  | step {tr₁ tr₂ tr₃ : Table} : Reach cfg k tr₁ tr₂ → Op cfg k tr₂ tr₃ → Reach cfg k tr₁ tr₃
+
+/-- The invariant "key `k` holds entry `e`" is preserved by every single operation … -/
+theorem C12_invariant_step (cfg : Cfg) (k : Bytes) (e : TransEntry) (tr tr' : Table)
+    (hop : Op cfg k tr tr') (hinv : assocGet tr k = some e) : assocGet tr' k = some e := by
+  cases hop with
+  | store k' v hne => rw [Lemmas.assocGet_assocSet_ne _ _ _ _ hne]; exact hinv
+  | lookup _ _ _ _ _ _ _ hg => exact Lemmas.getTransport_preserves cfg tr tr' _ _ _ _ _ _ k e hinv hg
+  | delete k' hne => rw [Lemmas.assocGet_assocDel_ne _ _ _ hne]; exact hinv
+  | remove proto h p tid hne =>
+    unfold removeTransport
+    simp only
+    split
+    · exact hinv
+    · rw [Lemmas.assocGet_assocDel_ne _ _ _ hne]; exact hinv
+
+/-- … hence by every interleaving. -/
+theorem C12_invariant (cfg : Cfg) (k : Bytes) (e : TransEntry) (tr tr' : Table)
+    (hr : Reach cfg k tr tr') (hinv : assocGet tr k = some e) : assocGet tr' k = some e := by
+  induction hr with
+  | refl => exact hinv
+  | step _ hop ih => exact C12_invariant_step cfg k e _ _ hop ih
+
+/-- Registration, then lookup. A TCP request of transaction `tid` from `h:p` is registered on
+connection `c`; after any interleaving of other transactions (lookups, registrations, removals under
+other keys — other connections of the same address, other transactions with the same sent-by) the
+lookup with the same `(tcp, h, p, tid)` answers with the entry whose primary is connection `c`,
+leaves the table unchanged, and sending through that entry writes on `c` and nowhere else. -/
+theorem C12_registered_lookup (cfg : Cfg) (hs : cfg.supported.contains (str "tcp") = true)
+    (tr tr' : Table) (h : Bytes) (p : Int) (tid key : Bytes) (e : TransEntry) (c : Nat)
+    (hreg : getTransport cfg tr (str "tcp") h p tid = some (tr', key, e))
+    (tr₂ : Table) (hreach : Reach cfg key (assocSet tr' key { e with primary := some (.conn c) }) tr₂) :
+    getTransport cfg tr₂ (str "tcp") h p tid = some (tr₂, key, { e with primary := some (.conn c) })
+    ∧ ∀ data, entrySend { e with primary := some (.conn c) } data = [.conn c data] := by
+  have hkey := Lemmas.getTransport_key cfg tr tr' _ h p tid key e hreg
+  have hinv := C12_invariant cfg key _ _ tr₂ hreach (Lemmas.assocGet_assocSet_same tr' key _)
+  refine ⟨?_, fun data => by simp [entrySend]⟩
+  rw [hkey] at hinv ⊢
+  exact Lemmas.getTransport_hit cfg tr₂ _ h p tid _ (by rw [Lemmas.toLower_tcp]; exact hs) hinv
+
+/-- Another transaction of the same host:port is an "other key", whatever connection it came on. -/
+theorem C12_other_transaction_other_key (h : Bytes) (p : Int) (m₁ b₁ m₂ b₂ : Bytes)
+    (h₁ : (45 : UInt8) ∉ m₁) (h₂ : (45 : UInt8) ∉ m₂) (hne : m₁ ≠ m₂ ∨ b₁ ≠ b₂) :
+    fullAddr (str "tcp") h p (m₁ ++ [45] ++ b₁) ≠ fullAddr (str "tcp") h p (m₂ ++ [45] ++ b₂) := by
+  intro e
+  obtain ⟨rfl, rfl⟩ := C12_key_injective h p m₁ b₁ m₂ b₂ h₁ h₂ e
+  rcases hne with hne | hne <;> exact hne rfl
+
+/-- The scenario of the property text: two connections `c₁`, `c₂` from the same address announce the
+same sent-by `h:p`; their requests (different transactions `m₁-b₁`, `m₂-b₂`) are registered one after
+the other on any table; afterwards each transaction's lookup answers with its own connection and
+changes nothing, so responses may be routed in any order and any number of times. -/
+theorem C12_two_connections_same_address (cfg : Cfg) (hs : cfg.supported.contains (str "tcp") = true)
+    (tr : Table) (h : Bytes) (p : Int) (m₁ b₁ m₂ b₂ : Bytes) (c₁ c₂ : Nat)
+    (h₁ : (45 : UInt8) ∉ m₁) (h₂ : (45 : UInt8) ∉ m₂) (hne : m₁ ≠ m₂ ∨ b₁ ≠ b₂) :
+    ∃ trA keyA eA trB keyB eB,
+      getTransport cfg tr (str "tcp") h p (m₁ ++ [45] ++ b₁) = some (trA, keyA, eA) ∧
+      getTransport cfg (assocSet trA keyA { eA with primary := some (.conn c₁) }) (str "tcp") h p (m₂ ++ [45] ++ b₂)
+        = some (trB, keyB, eB) ∧
+      (∃ e, getTransport cfg (assocSet trB keyB { eB with primary := some (.conn c₂) }) (str "tcp") h p (m₁ ++ [45] ++ b₁)
+              = some (assocSet trB keyB { eB with primary := some (.conn c₂) }, keyA, e)
+            ∧ ∀ d, entrySend e d = [.conn c₁ d]) ∧
+      (∃ e, getTransport cfg (assocSet trB keyB { eB with primary := some (.conn c₂) }) (str "tcp") h p (m₂ ++ [45] ++ b₂)
+              = some (assocSet trB keyB { eB with primary := some (.conn c₂) }, keyB, e)
+            ∧ ∀ d, entrySend e d = [.conn c₂ d]) := by
+  obtain ⟨trA, eA, hA⟩ := Lemmas.getTransport_tcp_some cfg tr h p (m₁ ++ [45] ++ b₁) hs
+  obtain ⟨trB, eB, hB⟩ := Lemmas.getTransport_tcp_some cfg
+    (assocSet trA (fullAddr (str "tcp") h p (m₁ ++ [45] ++ b₁)) { eA with primary := some (.conn c₁) })
+    h p (m₂ ++ [45] ++ b₂) hs
+  have hkeys := C12_other_transaction_other_key h p m₂ b₂ m₁ b₁ h₂ h₁
+    (by rcases hne with e | e; exact Or.inl (Ne.symm e); exact Or.inr (Ne.symm e))
+  refine ⟨trA, _, eA, trB, _, eB, hA, hB, ?_, ?_⟩
+  · have hr := C12_registered_lookup cfg hs tr trA h p _ _ eA c₁ hA
+      (assocSet trB (fullAddr (str "tcp") h p (m₂ ++ [45] ++ b₂)) { eB with primary := some (.conn c₂) })
+      (Reach.step (Reach.step (Reach.refl _) (Op.lookup _ _ _ _ _ _ _ _ hB)) (Op.store _ _ _ hkeys))
+    exact ⟨_, hr.1, hr.2⟩
+  · have hr := C12_registered_lookup cfg hs _ trB h p _ _ eB c₂ hB _ (Reach.refl _)
+    exact ⟨_, hr.1, hr.2⟩
+
+/-! ### 3. sending -/
+
+/-- An entry whose primary is connection `c` writes on `c` and nowhere else. -/
+theorem C12_send_on_conn (e : TransEntry) (c : Nat) (data : Bytes) (hp : e.primary = some (.conn c)) :
+    entrySend e data = [.conn c data] := by
+  simp [entrySend, hp]
+
+/-- `sendMessage` for a response whose (protocol, resolved host, port, transaction) key holds an entry
+with primary connection `c`: the message is written on `c` only — for provisional and final
+responses alike, because the removal at a final response happens after the lookup. -/
+theorem C12_sendMessage_on_conn (cfg : Cfg) (st : St) (hop : Hop) (m : Message) (e : TransEntry) (c : Nat)
+    (hs : cfg.supported.contains (toLower hop.transport) = true)
+    (hget : assocGet st.trans (fullAddr (toLower hop.transport) ((getIp cfg hop.host).getD hop.host) hop.port
+              ((getClientTransaction cfg.cm m).1.getD [])) = some e)
+    (hp : e.primary = some (.conn c)) :
+    (sendMessage cfg st hop m).2 = [.conn c ((getClientTransaction cfg.cm m).2.bytes cfg.cm)] := by
+  unfold sendMessage
+  simp only
+  rw [Lemmas.getTransport_hit cfg st.trans hop.transport _ hop.port _ e hs hget]
+  simp [entrySend, hp]
+
+/-- What `sendMessage` does to the table when the entry exists: nothing for a provisional response;
+for a final response it deletes the key built from the hop's host as written (which is the key that
+was looked up whenever the host is an IP literal or does not resolve through the table). -/
+theorem C12_sendMessage_table (cfg : Cfg) (st : St) (hop : Hop) (m : Message) (e : TransEntry)
+    (hs : cfg.supported.contains (toLower hop.transport) = true)
+    (hget : assocGet st.trans (fullAddr (toLower hop.transport) ((getIp cfg hop.host).getD hop.host) hop.port
+              ((getClientTransaction cfg.cm m).1.getD [])) = some e) :
+    (sendMessage cfg st hop m).1.trans =
+      if isFinalResponse cfg.finalClasses (getClientTransaction cfg.cm m).2 then
+        assocDel st.trans (fullAddr (toLower hop.transport) hop.host hop.port ((getClientTransaction cfg.cm m).1.getD []))
+      else st.trans := by
+  unfold sendMessage
+  simp only
+  rw [Lemmas.getTransport_hit cfg st.trans hop.transport _ hop.port _ e hs hget]
+  simp only
+  split
+  · unfold removeTransport
+    simp only [hs, Bool.not_true, Bool.false_eq_true, ↓reduceIte]
+  · rfl
+
+/-! ### 4. removal -/
+
+/-- `RemoveTransport` deletes exactly the given key: that key is gone, every other lookup is unchanged. -/
+theorem C12_remove_exact (cfg : Cfg) (tr : Table) (proto h : Bytes) (p : Int) (tid k : Bytes)
+    (hs : cfg.supported.contains (toLower proto) = true) :
+    assocGet (removeTransport cfg tr proto h p tid) k =
+      if fullAddr (toLower proto) h p tid = k then none else assocGet tr k := by
+  unfold removeTransport
+  simp only [hs, Bool.not_true, Bool.false_eq_true, ↓reduceIte]
+  exact Lemmas.assocGet_assocDel tr _ k
+
+/-- An unsupported protocol removes nothing. -/
+theorem C12_remove_unsupported (cfg : Cfg) (tr : Table) (proto h : Bytes) (p : Int) (tid : Bytes)
+    (hs : cfg.supported.contains (toLower proto) = false) :
+    removeTransport cfg tr proto h p tid = tr := by
+  unfold removeTransport
+  simp only [hs, Bool.not_false, ↓reduceIte]
+
+/-- After the first final response the entry is gone: the next lookup with the same arguments creates
+a fresh entry without a primary connection (so the guarantee is for the first final response only). -/
+theorem C12_after_remove_fresh (cfg : Cfg) (hs : cfg.supported.contains (str "tcp") = true)
+    (tr : Table) (h : Bytes) (p : Int) (tid : Bytes) (tr' : Table) (key : Bytes) (e : TransEntry)
+    (hg : getTransport cfg (removeTransport cfg tr (str "tcp") h p tid) (str "tcp") h p tid = some (tr', key, e)) :
+    e.primary = none := by
+  have hs' : cfg.supported.contains (toLower (str "tcp")) = true := by rw [Lemmas.toLower_tcp]; exact hs
+  have hgone := C12_remove_exact cfg tr (str "tcp") h p tid (fullAddr (toLower (str "tcp")) h p tid) hs'
+  simp only [↓reduceIte] at hgone
+  unfold getTransport at hg
+  simp only [hs', Bool.not_true, Bool.false_eq_true, ↓reduceIte, hgone] at hg
+  rw [Lemmas.toLower_tcp] at hg
+  have hnu : (str "tcp" == str "udp") = false := by rw [Lemmas.str_tcp, Lemmas.str_udp]; decide
+  simp only [hnu, Bool.false_eq_true, ↓reduceIte, beq_self_eq_true] at hg
+  simp only [Option.some.injEq, Prod.mk.injEq] at hg
+  rw [← hg.2.2]
+
+/-! ### 5. the pipeline: registration by `handleRawMessage`, response through `sendMessage` -/
+
+/-- A request received on TCP connection `c`, with a response hop and a transaction id, is registered:
+afterwards the key of (tcp, hop host without brackets, hop port, transaction) holds an entry whose
+primary is `c`, and every entry that existed under another key is still there, unchanged.
+(`Lemmas.stamped` is the request after Via decoding and `received`/`rport` stamping, exactly as
+`handleRawMessage` computes it: `Lemmas.handleRawMessage_trans`.) -/
+theorem C12_request_registers (cfg : Cfg) (hs : cfg.supported.contains (str "tcp") = true)
+    (st : St) (ev : RawEv) (c : Nat) (hop : Hop) (m' m'' : Message) (tid : Bytes)
+    (hreq : isRequest ev.msg = true) (hc : ev.tcpConn = some c)
+    (hhop : getNextResponseHop cfg (Lemmas.stamped cfg st ev) = (some hop, m'))
+    (htid : getClientTransaction cfg.cm m' = (some tid, m'')) :
+    (∃ e, assocGet (handleRawMessage cfg st ev).1.trans (fullAddr (str "tcp") (stripBrackets hop.host) hop.port tid) = some e
+          ∧ e.primary = some (.conn c)) ∧
+    (∀ k e₀, k ≠ fullAddr (str "tcp") (stripBrackets hop.host) hop.port tid → assocGet st.trans k = some e₀ →
+          assocGet (handleRawMessage cfg st ev).1.trans k = some e₀) := by
+  obtain ⟨tr', e, hg⟩ := Lemmas.getTransport_tcp_some cfg st.trans (stripBrackets hop.host) hop.port tid hs
+  have htr : (handleRawMessage cfg st ev).1.trans =
+      assocSet tr' (fullAddr (str "tcp") (stripBrackets hop.host) hop.port tid) { e with primary := some (.conn c) } := by
+    rw [Lemmas.handleRawMessage_trans, hreq, hc]
+    simp only [Lemmas.registerStep, hhop, htid, hg]
+  rw [htr]
+  refine ⟨⟨_, Lemmas.assocGet_assocSet_same _ _ _, rfl⟩, ?_⟩
+  intro k e₀ hk h0
+  rw [Lemmas.assocGet_assocSet_ne _ _ _ _ (Ne.symm hk)]
+  exact Lemmas.getTransport_preserves cfg st.trans tr' _ _ _ _ _ e k e₀ h0 hg
+
+/-- A message that is not a request, or that did not come over TCP, registers nothing. -/
+theorem C12_no_registration (cfg : Cfg) (st : St) (ev : RawEv)
+    (h : isRequest ev.msg = false ∨ ev.tcpConn = none) : (handleRawMessage cfg st ev).1.trans = st.trans := by
+  rw [Lemmas.handleRawMessage_trans]
+  rcases h with h | h <;> rw [h] <;> unfold Lemmas.registerStep
+  · rfl
+  · cases isRequest ev.msg <;> rfl
+
+/-- End to end on the table: the request is registered by `handleRawMessage`; the table then goes through
+any interleaving of operations that neither re-register nor remove that key; a response whose
+(protocol, resolved host, port, transaction) produce the registered key is written by `sendMessage`
+on connection `c` and nowhere else. -/
+theorem C12_response_on_request_connection (cfg : Cfg) (hs : cfg.supported.contains (str "tcp") = true)
+    (st : St) (ev : RawEv) (c : Nat) (hop : Hop) (m' m'' : Message) (tid : Bytes)
+    (hreq : isRequest ev.msg = true) (hc : ev.tcpConn = some c)
+    (hhop : getNextResponseHop cfg (Lemmas.stamped cfg st ev) = (some hop, m'))
+    (htid : getClientTransaction cfg.cm m' = (some tid, m''))
+    (st₂ : St)
+    (hreach : Reach cfg (fullAddr (str "tcp") (stripBrackets hop.host) hop.port tid) (handleRawMessage cfg st ev).1.trans st₂.trans)
+    (rhop : Hop) (rm : Message)
+    (hsr : cfg.supported.contains (toLower rhop.transport) = true)
+    (hkey : fullAddr (toLower rhop.transport) ((getIp cfg rhop.host).getD rhop.host) rhop.port
+              ((getClientTransaction cfg.cm rm).1.getD []) = fullAddr (str "tcp") (stripBrackets hop.host) hop.port tid) :
+    (sendMessage cfg st₂ rhop rm).2 = [.conn c ((getClientTransaction cfg.cm rm).2.bytes cfg.cm)] := by
+  obtain ⟨⟨e, he, hp⟩, -⟩ := C12_request_registers cfg hs st ev c hop m' m'' tid hreq hc hhop htid
+  have hinv := C12_invariant cfg _ e _ _ hreach he
+  exact C12_sendMessage_on_conn cfg st₂ rhop rm e c hsr (by rw [hkey]; exact hinv) hp
+
+/-! ### non-vacuity -/
+
+/-- a configuration that supports tcp -/
+def cfg0 : Cfg :=
+  { cm := [], finalClasses := [2, 3, 4, 5, 6], supported := [[117, 100, 112], [116, 99, 112]], names := [],
+    keepNextHopRoute := false, mustRecordRoute := false, hosts := [], routes := [], transports0 := none }
+
+theorem cfg0_tcp : cfg0.supported.contains (str "tcp") = true := by rw [Lemmas.str_tcp]; decide
+
+/-- INVITE-z9a on connection 1 and INVITE-z9b on connection 2, both from 10.0.0.1:5060. -/
+example := C12_two_connections_same_address cfg0 cfg0_tcp [] [49, 48, 46, 48, 46, 48, 46, 49] 5060
+  [73, 78, 86, 73, 84, 69] [122, 57, 97] [73, 78, 86, 73, 84, 69] [122, 57, 98] 1 2
+  (by decide) (by decide) (Or.inr (by decide))
+
+/-- the hypotheses of `C12_key_injective` hold for INVITE-z9a = INVITE-z9a -/
+example := C12_key_injective [49, 48, 46, 48, 46, 48, 46, 49] 5060
+  [73, 78, 86, 73, 84, 69] [122, 57, 97] [73, 78, 86, 73, 84, 69] [122, 57, 97] (by decide) (by decide) rfl
+
+/-- a table on which the invariant holds and an operation sequence that is not empty -/
+example : ∃ tr', Reach cfg0 [1] [([1], { primary := some (.conn 3), secondary := none })] tr' ∧
+    assocGet tr' [1] = some { primary := some (.conn 3), secondary := none } ∧ tr'.length = 1 + 1 :=
+  ⟨_, Reach.step (Reach.step (Reach.refl _) (Op.store _ [2] { primary := none, secondary := none } (by decide)))
+        (Op.delete _ [3] (by decide)), by decide, by decide⟩
+
+example : entrySend { primary := some (.conn 3), secondary := some ([49], 5060) } [120] = [.conn 3 [120]] :=
+  C12_send_on_conn _ 3 _ rfl
+
+/-! a concrete request on connection 7 and its 180 -/
+
+def vp0 : ViaParam :=
+  { protoName := [83, 73, 80], protoVersion := [50, 46, 48], transport := [84, 67, 80],
+    host := [49, 48, 46, 48, 46, 48, 46, 49], port := 5060,
+    params := [{ key := [98, 114, 97, 110, 99, 104], value := [122, 57, 97] }] }
+
+def req0 : Message :=
+  { start := .request [73, 78, 86, 73, 84, 69] (.abs [120]) [83, 73, 80, 47, 50, 46, 48],
+    headers := [{ name := [86, 105, 97], value := .via [vp0] },
+                { name := [67, 83, 101, 113], value := .cseq { seq := 1, method := [73, 78, 86, 73, 84, 69] } }],
+    body := [] }
+
+def ev0 : RawEv :=
+  { peerAddr := [49, 48, 46, 48, 46, 48, 46, 49], peerPort := 40000,
+    frm := { proto := [84, 67, 80], addr := [49, 48, 46, 48, 46, 48, 46, 50], port := 5060 },
+    receivedSupport := false, tcpConn := some 7, msg := req0, rxMatch := false, branch := [98] }
+
+theorem stamped0 : Lemmas.stamped cfg0 {} ev0 = req0 := by
+  simp only [Lemmas.stamped, ev0, req0, forEachViaHeaders, viaName, Lemmas.str_via]
+  decide
+
+theorem hop0 : getNextResponseHop cfg0 req0 =
+    (some { host := [49, 48, 46, 48, 46, 48, 46, 49], port := 5060, transport := [84, 67, 80] }, req0) := by
+  simp only [getNextResponseHop, getVia, findHeader, viaName, Lemmas.str_via, Lemmas.str_received]
+  decide
+
+theorem tid0 : getClientTransaction cfg0.cm req0 = (some [73, 78, 86, 73, 84, 69, 45, 122, 57, 97], req0) := by
+  simp only [getClientTransaction, getCSeq, getVia, findHeader, viaName, cseqName, Lemmas.str_via, Lemmas.str_cseq, Lemmas.str_branch]
+  decide
+
+/-- hypotheses of `C12_request_registers` -/
+example := C12_request_registers cfg0 cfg0_tcp {} ev0 7 _ _ _ _ (by decide) rfl (by rw [stamped0]; exact hop0) tid0
+
+def rsp0 : Message := { req0 with start := .status [83, 73, 80, 47, 50, 46, 48] 180 [82] }
+def hopR : Hop := { host := [49, 48, 46, 48, 46, 48, 46, 49], port := 5060, transport := [84, 67, 80] }
+
+theorem tidR : getClientTransaction cfg0.cm rsp0 = (some [73, 78, 86, 73, 84, 69, 45, 122, 57, 97], rsp0) := by
+  simp only [getClientTransaction, getCSeq, getVia, findHeader, viaName, cseqName, Lemmas.str_via, Lemmas.str_cseq, Lemmas.str_branch]
+  decide
+
+theorem key0 : fullAddr (str "tcp") (stripBrackets hopR.host) hopR.port [73, 78, 86, 73, 84, 69, 45, 122, 57, 97] =
+    [116, 99, 112, 58, 47, 47, 49, 48, 46, 48, 46, 48, 46, 49, 58, 53, 48, 54, 48, 45, 73, 78, 86, 73, 84, 69, 45, 122, 57, 97] := by
+  simp only [fullAddr, Lemmas.str_tcp, Lemmas.str_schemeSep]
+  decide
+
+theorem keyR : fullAddr (toLower hopR.transport) ((getIp cfg0 hopR.host).getD hopR.host) hopR.port
+      ((getClientTransaction cfg0.cm rsp0).1.getD []) =
+    fullAddr (str "tcp") (stripBrackets hopR.host) hopR.port [73, 78, 86, 73, 84, 69, 45, 122, 57, 97] := by
+  rw [tidR, key0]
+  simp only [fullAddr, Lemmas.str_tcp, Lemmas.str_schemeSep]
+  decide
+
+/-- hypotheses of `C12_response_on_request_connection` (and of `C12_sendMessage_on_conn`, `C12_invariant`):
+the 180 to INVITE-z9a goes out on connection 7 after another key was written in between -/
+example : (sendMessage cfg0 { trans := assocSet (handleRawMessage cfg0 {} ev0).1.trans [1] { primary := none, secondary := none } }
+            hopR rsp0).2 = [.conn 7 (rsp0.bytes cfg0.cm)] := by
+  have := C12_response_on_request_connection cfg0 cfg0_tcp {} ev0 7 hopR req0 req0 _ (by decide) rfl
+    (by rw [stamped0]; exact hop0) tid0
+    { trans := assocSet (handleRawMessage cfg0 {} ev0).1.trans [1] { primary := none, secondary := none } }
+    (Reach.step (Reach.refl _) (Op.store _ [1] _ (by rw [key0]; decide)))
+    hopR rsp0 (by decide) keyR
+  rw [this, tidR]
+
+/-- hypothesis of `C12_transaction_id_shape` -/
+example := C12_transaction_id_shape cfg0.cm req0 _ (by rw [tid0])
+
+/-- hypothesis of `C12_no_registration`: the response registers nothing -/
+example : (handleRawMessage cfg0 {} { ev0 with msg := rsp0 }).1.trans = [] :=
+  C12_no_registration cfg0 {} _ (Or.inl (by decide))
+
+/-- hypotheses of `C12_key_tid_injective`, `C12_shared_ne_keyed`, `C12_other_transaction_other_key` -/
+example := C12_key_tid_injective [49] 5060 [65, 45, 122] [65, 45, 122] (by decide) (by decide) rfl
+example := C12_shared_ne_keyed [49] 5060 [65, 45, 122] (by decide)
+example := C12_other_transaction_other_key [49] 5060 [65] [122] [66] [122] (by decide) (by decide) (Or.inl (by decide))
+
+/-- hypotheses of `C12_remove_exact`, `C12_after_remove_fresh` (with `Lemmas.getTransport_tcp_some` for
+the existence of the lookup's answer) -/
+example := C12_remove_exact cfg0 [([1], { primary := none, secondary := none })] [84, 67, 80] [49] 5060 [65, 45, 122] [1]
+  (by decide)
+example : ∃ tr' key e, getTransport cfg0 (removeTransport cfg0 (handleRawMessage cfg0 {} ev0).1.trans (str "tcp")
+            hopR.host 5060 [73, 78, 86, 73, 84, 69, 45, 122, 57, 97]) (str "tcp") hopR.host 5060
+            [73, 78, 86, 73, 84, 69, 45, 122, 57, 97] = some (tr', key, e) ∧ e.primary = none := by
+  obtain ⟨tr', e, h⟩ := Lemmas.getTransport_tcp_some cfg0 (removeTransport cfg0 (handleRawMessage cfg0 {} ev0).1.trans (str "tcp")
+            hopR.host 5060 [73, 78, 86, 73, 84, 69, 45, 122, 57, 97]) hopR.host 5060 [73, 78, 86, 73, 84, 69, 45, 122, 57, 97] cfg0_tcp
+  exact ⟨tr', _, e, h, C12_after_remove_fresh cfg0 cfg0_tcp _ _ _ _ _ _ _ h⟩
+
+/-- hypotheses of `C12_sendMessage_on_conn` / `C12_sendMessage_table`, for every message: a table that
+holds connection 7 under the message's key -/
+example (m : Message) :
+    let k := fullAddr (toLower hopR.transport) ((getIp cfg0 hopR.host).getD hopR.host) hopR.port
+               ((getClientTransaction cfg0.cm m).1.getD [])
+    let st : St := { trans := [(k, { primary := some (.conn 7), secondary := none })] }
+    (sendMessage cfg0 st hopR m).2 = [.conn 7 ((getClientTransaction cfg0.cm m).2.bytes cfg0.cm)] ∧
+    (sendMessage cfg0 st hopR m).1.trans =
+      if isFinalResponse cfg0.finalClasses (getClientTransaction cfg0.cm m).2 then
+        assocDel st.trans (fullAddr (toLower hopR.transport) hopR.host hopR.port ((getClientTransaction cfg0.cm m).1.getD []))
+      else st.trans := by
+  intro k st
+  have hget : assocGet st.trans k = some { primary := some (.conn 7), secondary := none } := by
+    simp [st, assocGet]
+  exact ⟨C12_sendMessage_on_conn cfg0 st hopR m _ 7 (by decide) hget rfl,
+         C12_sendMessage_table cfg0 st hopR m _ (by decide) hget⟩
+
 end Props.C12
